@@ -139,6 +139,21 @@ def st_load():
     return ["TraceLoad / one stored level changed by 5e-4 mm: rejected (%s)" % r["fails"][0]["clause"]]
 
 
+def st_plot(chk):
+    from . import hydro_checks as HY, plot_checks as PL
+    behs = HY.behaviours(chk, "selftest dataset (plots)", HY.hydro_consts("TruthA", 14, "{14}", start="{2, 4, 7}", max_gap=1,
+                                                                         force="TRUE"), simulate="num=60", workers=1)
+    behs = [b for b in behs if HY._ok(b, "recOK", 2) and HY._ok(b, "riseOK", 2)]
+    wd = workdir("selfplot")
+    try:
+        cases, problems = PL.one_dataset(0, behs[0], wd)
+    finally:
+        rm(wd)
+    c = [x for x in cases if x["kind"] == "recession"][0]
+    bad = copy.deepcopy(c); bad["lines"][0][-1][0] += 30; bad["expected"] = bad["lines"]
+    return [_expect("TracePlot", [c], [bad], "PLOT", "TracePlot / one drawn point moved by 3 s")]
+
+
 def run_all(chk):
     lines = []
     lines += st_classify()
@@ -147,6 +162,7 @@ def run_all(chk):
     lines += st_field()
     lines += st_load()
     lines += st_sim_pest_prov(chk)
+    lines += st_plot(chk)
     return lines
 
 
